@@ -1,6 +1,6 @@
 CONSTANTS
   Deviations = {}
-  Families = {"group", "plain", "switch", "fileonly", "portdef", "teoscli", "bin"}
+  Families = {"group", "plain", "switch", "fileonly", "portdef", "samevalue", "teoscli", "bin"}
   Contexts = {"bare", "full"}
   UnknownF = {"wrongnet"}
   UnknownC = {"liquid"}
